@@ -624,7 +624,7 @@ fn multi_eval(func: &str, a: &[u64], b: &[u64]) -> Result<u64, (String, String, 
         }
         "multiply_u64" => {
             let p = ba.mul_u64(b[0]);
-            for rl in [1usize, len, len + 1] {
+            for rl in [1usize, len, len + 1, len + 2, len + 4] {
                 let mut r = vec![0xDEADu64; rl];
                 hu::multiply_uint_u64(a, b[0], &mut r);
                 chk!(format!("multiply_uint_u64 result_len={rl}"), r, wrap(&p, rl));
@@ -643,7 +643,9 @@ fn multi_eval(func: &str, a: &[u64], b: &[u64]) -> Result<u64, (String, String, 
         }
         "multiply" => {
             let p = ba.mul(&bb);
-            for rl in [1usize, len, 2 * len] {
+            // also result buffers LONGER than len1+len2 (pre-filled): the words above the product must be cleared
+            // (added after seeded change C08-D)
+            for rl in [1usize, len, 2 * len, 2 * len + 1, 2 * len + 3] {
                 let mut r = vec![0xDEADu64; rl];
                 hu::multiply_uint(a, b, &mut r);
                 chk!(format!("multiply_uint result_len={rl}"), r, wrap(&p, rl));
